@@ -12,6 +12,7 @@
 
    Bytes are Coq strings; all byte classification goes through N_of_ascii (never a match on the 8 bits). *)
 From Coq Require Import List NArith ZArith Bool Ascii String DecimalString.
+From Qryn Require Import model.GoFloat.
 Import ListNotations.
 Open Scope string_scope.
 Open Scope list_scope.
@@ -730,6 +731,45 @@ Definition rows_of_result (l : list json) : list (json * json) := flat_map rows_
 Definition row_doc (vd : entry -> json) (e : entry) : json * json := (labels_doc (e_lbls e), vd e).
 
 (* ------------------------------------------------------------------------------------------ *)
+(* rows as the encoders receive them (shared.LogEntry / promql.Point): the number texts are no
+   longer inputs, they are computed by the printers of model/GoFloat.v from TimestampNS and the
+   bits of the float64 Value *)
+Record rrow := {
+  r_fp : N; r_lbls : list (string * string); r_ts : Z; r_msg : string;
+  r_bits : N;                          (* math.Float64bits(Value) *)
+  r_err : errk
+}.
+Definition row_with (tsf val : string) (r : rrow) : entry :=
+  {| e_fp := r_fp r; e_lbls := r_lbls r; e_ts := r_ts r; e_msg := r_msg r; e_tsf := tsf; e_val := val; e_err := r_err r |}.
+(* exportStreamsValue / Tail use neither text *)
+Definition log_row (r : rrow) : entry := row_with EmptyString EmptyString r.
+(* QueryRange matrix: fmt.Sprintf("%f", float64(e.TimestampNS)/1e9) and FormatFloat(e.Value,'f',-1,64) + the two TrimSuffix *)
+Definition matrix_row (r : rrow) : entry :=
+  row_with (f6_text (ts_seconds (r_ts r))) (matrix_val_text (r_bits r)) r.
+(* QueryInstant vector: WriteInt64(e.TimestampNS / 1000000000) (Go's / truncates towards zero) and FormatFloat
+   (the TrimSuffix results are assigned to a shadowed variable there) *)
+Definition vector_row (r : rrow) : entry :=
+  row_with (int_text (Z.quot (r_ts r) 1000000000)) (value_text (r_bits r)) r.
+(* writeMatrix / writeVector: WriteFloat64(float64(T)/1000), FormatFloat(V,'f',-1,64); writeScalar: %f, %f *)
+Definition prom_point_of (r : rrow) : psample :=
+  {| ps_t := wfloat64_text (ms_seconds (r_ts r)); ps_v := value_text (r_bits r) |}.
+Definition prom_scalar_of (r : rrow) : psample :=
+  {| ps_t := f6_text (ms_seconds (r_ts r)); ps_v := f6_text (fl_of_bits (r_bits r)) |}.
+Definition rows_with (f : rrow -> entry) (bs : list (list rrow)) : list (list entry) := map (map f) bs.
+
+(* the printers on their own (kind numfmt of the correspondence): per row the texts of
+   %f and 'f' -1 and WriteFloat64 of the value, %f of ts/1e9, WriteFloat64 of ts/1000, %d of ts, as strings of one array *)
+Definition numfmt_row (r : rrow) : list string :=
+  let x := fl_of_bits (r_bits r) in
+  [f6_text x; shortest_text x; wfloat64_text x; f6_text (ts_seconds (r_ts r)); wfloat64_text (ms_seconds (r_ts r));
+   int_text (r_ts r); int_text (Z.quot (r_ts r) 1000000000)].
+Definition enc_numfmt (rs : list rrow) : list token :=
+  [TArrS] ++ list_loop (fun x => [TStr x]) (flat_map numfmt_row rs) false ++ [TArrE].
+Definition doc_numfmt (rs : list rrow) : json := JArr (map JStr (flat_map numfmt_row rs)).
+(* Coq's IEEE 754 specification agrees with the rounding used for the two quotients *)
+Definition row_sf_agrees (r : rrow) : bool := sf_agrees (r_ts r) 1000000000 && sf_agrees (r_ts r) 1000.
+
+(* ------------------------------------------------------------------------------------------ *)
 (* comparison helpers for generated case files *)
 
 Definition tok_eqb (a b : token) : bool :=
@@ -812,11 +852,11 @@ Definition dec_Z (s : string) : Z :=
 Definition dec_nat (s : string) : nat := N.to_nat (dec_N s 0).
 
 Inductive enc_kind := KStreams | KMatrix | KTail | KVector | KTags | KTagValues | KLabels | KSeries
-                  | KPromMatrix | KPromVector | KPromScalar | KPromError | KTrace | KSearch.
+                  | KPromMatrix | KPromVector | KPromScalar | KPromError | KTrace | KSearch | KNumFmt.
 Record case := {
   c_id : Z;
   c_kind : enc_kind;
-  c_batches : list (list entry);   (* labels of each entry in the order observed in the output (see harness) *)
+  c_batches : list (list rrow);    (* labels of each row in the order observed in the output (see harness) *)
   c_blbls : list (list (string * string));  (* Prometheus kinds: one label set per batch (= series) *)
   c_items : list string;           (* list endpoints: tag names, label values, stored label documents *)
   c_order : list N;                (* vector: fingerprints in the order of the result array *)
@@ -826,21 +866,21 @@ Record case := {
 (* the header test of the code under /repo today (after fix #23) *)
 Definition cur_hdr : hdr_test := HdrFirstOrFp.
 
-(* Prometheus kinds travel as batches: batch = series, entry = point (e_tsf, e_val the two texts) *)
+(* Prometheus kinds travel as batches: batch = series, row = point (T in r_ts, V in r_bits) *)
 Definition case_series (c : case) : list pseries :=
-  map (fun bl => {| pr_lbls := snd bl; pr_pts := map (fun e => {| ps_t := e_tsf e; ps_v := e_val e |}) (fst bl) |})
+  map (fun bl => {| pr_lbls := snd bl; pr_pts := map prom_point_of (fst bl) |})
       (combine (c_batches c) (c_blbls c)).
 Definition case_scalar (c : case) : psample :=
-  match case_series c with s :: _ => match pr_pts s with p :: _ => p | [] => {| ps_t := ""; ps_v := "" |} end
-                      | [] => {| ps_t := ""; ps_v := "" |} end.
+  match c_batches c with (r :: _) :: _ => prom_scalar_of r | _ => {| ps_t := ""; ps_v := "" |} end.
 Definition case_msg (c : case) : string := match c_items c with m :: _ => m | [] => "" end.
 
 Definition model_bytes (c : case) : string :=
   match c_kind c with
-  | KStreams => render (enc_streams cur_hdr (c_batches c))
-  | KMatrix => render (enc_matrix (c_batches c))
-  | KTail => render (enc_tail cur_hdr (c_batches c))
-  | KVector => render (enc_vector (c_order c) (c_batches c))
+  | KStreams => render (enc_streams cur_hdr (rows_with log_row (c_batches c)))
+  | KMatrix => render (enc_matrix (rows_with matrix_row (c_batches c)))
+  | KTail => render (enc_tail cur_hdr (rows_with log_row (c_batches c)))
+  | KVector => render (enc_vector (c_order c) (rows_with vector_row (c_batches c)))
+  | KNumFmt => render (enc_numfmt (List.concat (c_batches c)))
   | KTags => render (enc_tempo_tags (c_items c))
   | KTagValues => render (enc_tempo_values (c_items c))
   | KLabels => render (enc_labels (c_items c))
@@ -861,12 +901,13 @@ Fixpoint all_some {A} (l : list (option A)) : option (list A) :=
 (* None: the property does not speak about this case (a stored label document that is not JSON) *)
 Definition spec_doc (c : case) : option json :=
   match c_kind c with
-  | KStreams => Some (doc_streams (c_batches c))
-  | KMatrix => Some (doc_matrix (c_batches c))
-  | KTail => Some (doc_tail (c_batches c))
-  | KVector => if is_perm_of (c_order c) (map e_fp (last_values (rows_matrix (c_batches c))))
-               then Some (doc_vector (c_order c) (c_batches c))
+  | KStreams => Some (doc_streams (rows_with log_row (c_batches c)))
+  | KMatrix => Some (doc_matrix (rows_with matrix_row (c_batches c)))
+  | KTail => Some (doc_tail (rows_with log_row (c_batches c)))
+  | KVector => if is_perm_of (c_order c) (map e_fp (last_values (rows_matrix (rows_with vector_row (c_batches c)))))
+               then Some (doc_vector (c_order c) (rows_with vector_row (c_batches c)))
                else Some JNull      (* some series is missing or repeated: never equal to a body *)
+  | KNumFmt => Some (doc_numfmt (List.concat (c_batches c)))
   | KTags => Some (doc_tempo_list "tagNames" (c_items c))
   | KTagValues => Some (doc_tempo_list "tagValues" (c_items c))
   | KLabels => Some (doc_labels (c_items c))
@@ -883,7 +924,7 @@ Definition model_mismatch (c : case) : bool := negb (String.eqb (model_bytes c) 
 (* the property itself, evaluated on what the implementation sent: one JSON document, equal (up to
    member order) to the intended document of the rows *)
 Definition spec_violation (c : case) : bool :=
-  if forallb (forallb no_fail) (c_batches c) then
+  if forallb (forallb no_fail) (rows_with log_row (c_batches c)) then
     match spec_doc c with
     | Some want => match parse_bytes (c_out c) with
                    | Some d => negb (json_eq d want)
@@ -897,9 +938,11 @@ Definition unreadable_case (c : case) : bool :=
 Definition mismatches (cs : list case) : list Z := map c_id (filter model_mismatch cs).
 Definition spec_violations (cs : list case) : list Z := map c_id (filter spec_violation cs).
 Definition unreadable (cs : list case) : list Z := map c_id (filter unreadable_case cs).
+Definition float_disagreements (cs : list case) : list Z :=
+  map c_id (filter (fun c => negb (forallb (forallb row_sf_agrees) (c_batches c))) cs).
 
 (* decoding of a transported case:
-   id | kind | #labelsets { #pairs { k | v } } | #batches { labelset | #entries { fp | labelset | ts | err | msg | tsf | val } } | #items { item } | #order { fp } | out *)
+   id | kind | #labelsets { #pairs { k | v } } | #batches { labelset | #entries { fp | labelset | ts | err | msg | bits } } | #items { item } | #order { fp } | out *)
 Fixpoint take_pairs (n : nat) (fs : list string) : option (list (string * string) * list string) :=
   match n with
   | O => Some ([], fs)
@@ -928,22 +971,22 @@ Fixpoint take_lsets (n : nat) (fs : list string) : option (list (list (string * 
 Definition dec_err (s : string) : errk :=
   match dec_nat s with O => ENone | S O => EEOF | _ => EFail end.
 Fixpoint take_entries (ls : list (list (string * string))) (n : nat) (fs : list string)
-  : option (list entry * list string) :=
+  : option (list rrow * list string) :=
   match n with
   | O => Some ([], fs)
   | S n => match fs with
-           | fp :: li :: ts :: er :: msg :: tsf :: val :: r =>
+           | fp :: li :: ts :: er :: msg :: bits :: r =>
              match take_entries ls n r with
              | Some (l, r') =>
-               Some ({| e_fp := dec_N fp 0; e_lbls := nth (dec_nat li) ls []; e_ts := dec_Z ts; e_msg := unesc msg;
-                        e_tsf := unesc tsf; e_val := unesc val; e_err := dec_err er |} :: l, r')
+               Some ({| r_fp := dec_N fp 0; r_lbls := nth (dec_nat li) ls []; r_ts := dec_Z ts; r_msg := unesc msg;
+                        r_bits := dec_N bits 0; r_err := dec_err er |} :: l, r')
              | None => None
              end
            | _ => None
            end
   end.
 Fixpoint take_batches (ls : list (list (string * string))) (n : nat) (fs : list string)
-  : option (list (list entry * list (string * string)) * list string) :=
+  : option (list (list rrow * list (string * string)) * list string) :=
   match n with
   | O => Some ([], fs)
   | S n => match fs with
@@ -980,7 +1023,8 @@ Definition dec_kind (s : string) : option enc_kind :=
   else if String.eqb s "promerror" then Some KPromError
   else if String.eqb s "trace" then Some KTrace
   else if String.eqb s "search" then Some KSearch
-  else if String.eqb s "searchql" then Some KSearch else None.
+  else if String.eqb s "searchql" then Some KSearch
+  else if String.eqb s "numfmt" then Some KNumFmt else None.
 Definition decode_case (x : lbytes) : option case :=
   match split_bar (string_of_list_byte (unLB x)) (fun y => y) with
   | id :: kind :: nls :: r =>
